@@ -399,6 +399,8 @@ class Polynomial:
 
     def eval(self, x):
         if self.raw:
+            # Powers of an integer column are computed in floating point: int64 arithmetic wraps around
+            x = np.asarray(x, dtype=float)
             return np.column_stack([np.power(x, k) for k in range(1, self.degree + 1)])
 
         def get_alpha(k):
